@@ -176,6 +176,12 @@ func (db *DB) WithDynamicLimit(dynamicLimit DynamicLimit) (*DB, error) {
 		return nil, errors.New("already has dynamic limit")
 	}
 
+	// A limit without ShouldContinueOnError is enforced: nothing that violates
+	// it continues.
+	if dynamicLimit.GetLimitFilter != nil && dynamicLimit.ShouldContinueOnError == nil {
+		dynamicLimit.ShouldContinueOnError = func(error, string) bool { return false }
+	}
+
 	dbCopy := *db
 	dbCopy.dynamicLimit = dynamicLimit
 	return &dbCopy, nil
